@@ -22,9 +22,12 @@ dictionaries {attribute -> sublist of its values (the empty list included)} over
 
 get_svh (filters/statistical_filters.py), alpha at its default, max_order in {2, 3, 10}, mp=False:
 
-* quick: one representative per isomorphism class of the hypergraphs on <= 4 nodes with <= 3 hyperedges of size
-  1..4, all weight assignments in 1..3;  thorough: all labelled ones (13 276 weighted hypergraphs) and one
-  representative per isomorphism class on 5 nodes with <= 4 hyperedges of size 1..5, all weights in 1..3.
+* quick: one representative per isomorphism class (node relabelling) of the hypergraphs on <= 4 nodes with <= 3
+  hyperedges of size 1..4, all weight assignments in 1..3, all three max_order.
+  thorough, in addition: all labelled ones (13 276 weighted hypergraphs) with max_order 10 and with each max_order in
+  {2, 3} that actually excludes a hyperedge; one representative per isomorphism class on 5 nodes with <= 4 hyperedges
+  of size 1..5 (654 classes), all weights in 1..3 with max_order 10 and four weightings with max_order 2 and 3
+  (the bound only selects the sizes, each size is then treated on its own; one get_svh call costs ~8 ms).
 * sampled: random weighted hypergraphs, 3..10 nodes, 1..8 hyperedges, weights up to 20 (heavy weights are needed to
   get any hyperedge validated; in the exhaustive scope nothing can be), int / string labels, also unweighted.
 * one mp=True run (thorough only, in the parent process) compared clause by clause like the others.
@@ -559,11 +562,28 @@ def canonical(es, n):
     return True
 
 
-def svh_structures(n, max_edges, max_size, iso):
+def svh_structures(n, max_edges, max_size, iso, plan):
     pool = [c for s in range(1, min(max_size, n) + 1) for c in itertools.combinations(range(n), s)]
     for m in range(0, max_edges + 1):
         for es in itertools.combinations(pool, m):
-            yield (n, es, iso)
+            yield (n, es, iso, plan)
+
+
+def svh_plan(es, plan):
+    """(weighted spec, max_order) runs of one structure.
+    full:    every weighting in 1..3 x max_order in {2, 3, 10}
+    binding: every weighting x {10} + those of {2, 3} that exclude a hyperedge of the structure
+    ten:     every weighting x {10}; the constant weightings and (1,2,3,1,..) x {2, 3}"""
+    sizes = {len(e) for e in es}
+    few = {(1,) * len(es), (2,) * len(es), (3,) * len(es), tuple(1 + i % 3 for i in range(len(es)))}
+    for spec in weightings(es):
+        ws = tuple(w for _, w in spec["edges"])
+        for mo in (2, 3, 10):
+            if plan == "binding" and mo != 10 and not any(sz > mo for sz in sizes):
+                continue
+            if plan == "ten" and mo != 10 and ws not in few:
+                continue
+            yield spec, mo
 
 
 def weightings(es):
@@ -605,13 +625,12 @@ def _work(job):
         for spec, nc, ec, mode, keep in job[1]:
             check_filter(rec, spec, nc, ec, mode, keep)
     elif kind == "svh-struct":  # (n, edge set, iso) x all weightings x max_orders
-        for n, es, iso in job[1]:
+        for n, es, iso, plan in job[1]:
             if iso and not canonical(es, n):
                 continue
-            rec.count("svh: structures enumerated" + (" (isomorphism class representatives)" if iso else ""))
-            for spec in weightings(es):
-                for mo in (2, 3, 10):
-                    check_svh(rec, spec, mo)
+            rec.count(f"svh: structures on {n} nodes enumerated" + (" (isomorphism class representatives)" if iso else ""))
+            for spec, mo in svh_plan(es, plan):
+                check_svh(rec, spec, mo)
     elif kind == "svh-runs":
         for spec, mo in job[1]:
             check_svh(rec, spec, mo)
@@ -704,19 +723,20 @@ def run(ctx):
         ctx.count(f"filter: random {cls} runs", cnt)
 
     # ---- svh exhaustive
-    if q:
-        _run(ctx, total, "svh-struct", svh_structures(4, 3, 4, True), 16)
-        ctx.exhaustive_parts.append("get_svh: one representative per isomorphism class of the hypergraphs on <=4 nodes "
-                                    "with <=3 hyperedges of size 1..4 x all weights in 1..3 x max_order in {2,3,10}")
-    else:
-        _run(ctx, total, "svh-struct", svh_structures(4, 3, 4, False), 8)
-        _run(ctx, total, "svh-struct", svh_structures(5, 4, 5, True), 64)
+    _run(ctx, total, "svh-struct", svh_structures(4, 3, 4, True, "full"), 16)
+    ctx.exhaustive_parts.append("get_svh: one representative per isomorphism class of the hypergraphs on <=4 nodes "
+                                "with <=3 hyperedges of size 1..4 x all weights in 1..3 x max_order in {2,3,10}")
+    if not q:
+        _run(ctx, total, "svh-struct", svh_structures(4, 3, 4, False, "binding"), 8)
         ctx.exhaustive_parts.append("get_svh: all labelled hypergraphs on <=4 nodes with <=3 hyperedges of size 1..4 x "
-                                    "all weights in 1..3 x max_order in {2,3,10}")
+                                    "all weights in 1..3 x max_order 10 and every max_order in {2,3} that excludes one "
+                                    "of the hyperedges")
+        _run(ctx, total, "svh-struct", svh_structures(5, 4, 5, True, "ten"), 64)
         ctx.exhaustive_parts.append("get_svh: one representative per isomorphism class of the hypergraphs on 5 nodes "
-                                    "with <=4 hyperedges of size 1..5 x all weights in 1..3 x max_order in {2,3,10}")
+                                    "with <=4 hyperedges of size 1..5 x all weights in 1..3 x max_order 10 (max_order "
+                                    "2 and 3 with the constant weightings and 1,2,3,1 only)")
     # ---- svh random
-    cnt = 1200 if q else 30000
+    cnt = 1200 if q else 15000
     _run(ctx, total, "svh-runs", [(random_svh_spec(rng), rng.choice([2, 3, 10])) for _ in range(cnt)], 64)
     ctx.count("svh: random runs", cnt)
     ctx.rule("random svh cases: 3..10 nodes, 1..8 distinct hyperedges of size 1..5, weights 1..3 or (60% of the cases) "
